@@ -67,6 +67,12 @@ func (m *Params) ValidateBasic() error {
 	if m.SignedWindow <= 1 {
 		return fmt.Errorf("invalid signed window too short")
 	}
+	if m.SlashFraction.IsNil() {
+		return fmt.Errorf("slash fraction cannot be empty")
+	}
+	if m.OracleSetUpdatePowerChangePercent.IsNil() {
+		return fmt.Errorf("oracle set update power change percent cannot be empty")
+	}
 	if m.SlashFraction.IsNegative() {
 		return fmt.Errorf("attempted to slash with a negative slash factor: %v", m.SlashFraction)
 	}
